@@ -122,6 +122,22 @@ def far_from(x, r):
     return None
 
 
+def subtyped(w, r):
+    """The witness with leaves replaced by instances of a *subclass* of the expected type that the type
+    check lets through: a datetime (with a time of day) where a date stands, a bool where 0 / 1 stands."""
+    from datetime import time
+    t = type(w)
+    if t is date:
+        return datetime.combine(w, r.choice((time(13, 37, 5), time(0, 0), time(23, 59, 59, 999999))))
+    if t is int and w in (0, 1) and r.random() < 0.5:
+        return bool(w)
+    if t is list:
+        return [subtyped(x, r) for x in w]
+    if t is dict:
+        return {k: subtyped(x, r) for k, x in w.items()}
+    return w
+
+
 def perturb(w, r):
     ps = list(positions(w))
     p = r.choice(ps)
@@ -191,6 +207,13 @@ def value_features(v):
         f.append("v:list")
         if any(type(x) is dict for x in v):
             f.append("v:list_of_dicts")
+
+        def holds_dict(x, d=0):
+            if type(x) is dict:
+                return True
+            return type(x) is list and d < 8 and any(holds_dict(y, d + 1) for y in x)
+        if any(type(x) is list and holds_dict(x) for x in v):
+            f.append("v:list_of_lists_holding_dicts")      # a partial dict one or more list levels below a window element
     return f
 
 
@@ -216,6 +239,8 @@ class Prop(BaseProp):
             vk, v = "witness", w
         elif x < 0.75:
             vk, v = "partial", S.partial_of(w, r, p_drop=r.choice((0.2, 0.5, 0.8)))
+        elif x < 0.8:
+            vk, v = "subtyped", subtyped(w, r)
         elif x < 0.9:
             vk, v = "perturbed", perturb(w, r)
         else:
